@@ -4,7 +4,7 @@
   Mirrors pyroll/core/unit/unit.py:
     * class attributes `pre_processors` / `post_processors` (lists in the class `__dict__`),
     * `Unit.__init_subclass__` (fresh empty lists for every class whose `__init_subclass__` chain reaches it),
-    * `_yield_pre_processors` / `_yield_post_processors` (walk over the reversed MRO),
+    * `_yield_pre_processors` / `_yield_post_processors` (`walk`: `getattr` on every class of the reversed MRO),
     * `init_solve` (pre-processor chain, `InProfile`/`OutProfile` copies) and `solve`
       (own solution, public copy of `out_profile`, post-processor chain, returned profile).
 
@@ -110,14 +110,17 @@ def clear (H : Hier) (w : Bool) (c : Nat) : Hier × Out :=
 /-- the list a class defines itself (`cls.__dict__.get(name, [])`) -/
 def ownList (H : Hier) (w : Bool) (c : Nat) : List Nat := (H.lists w c).getD []
 
-/-- `_yield_pre_processors` / `_yield_post_processors` of an instance of class `c`:
-`for s in reversed(type(self).__mro__): yield from s.__dict__.get(name, [])` -/
+/-- SPECIFICATION of the order: the own lists of the classes along the reversed MRO (bases first) -/
 def yieldOf (H : Hier) (w : Bool) (c : Nat) : List Nat :=
   (H.mro c).reverse.flatMap (ownList H w)
 
-/-- the walk as it was written before the repair: `getattr(s, name, None)` — an MRO entry without a list of
-its own contributes the list it INHERITS (see `getattr_walk_consults_twice` in PyrollProps/C18.lean) -/
-def yieldGetattr (H : Hier) (w : Bool) (c : Nat) : List Nat :=
+/-- THE CODE: `_yield_pre_processors` / `_yield_post_processors` of an instance of class `c`:
+`for s in reversed(type(self).__mro__): inits = getattr(s, name, None); if inits is not None: yield from inits`.
+`getattr` on the class `s` is an attribute lookup along the MRO of `s`: an MRO entry without a list of its own
+contributes the list it INHERITS.  `walk = yieldOf` as soon as every class whose MRO reaches a list has its own
+(`walk_eq_spec` in PyrollProps/C18.lean); with a class whose `__init_subclass__` chain was cut the inherited
+list is yielded again (`getattr_walk_consults_twice`). -/
+def walk (H : Hier) (w : Bool) (c : Nat) : List Nat :=
   (H.mro c).reverse.flatMap (fun s => (lookup (H.lists w) (H.mro s)).getD [])
 
 inductive COp where
@@ -205,7 +208,7 @@ def chain (E : Env) (w : Bool) (u : Nat) : List Nat → Heap → Nat → Heap ×
 /-- `init_solve`: pre-processor chain, then `self.in_profile = InProfile(self, profile)` (a copy) and
 `if not self.out_profile: self.out_profile = OutProfile(self, profile)` (a copy, kept on later solves) -/
 def initSolve (E : Env) (st : RState) (u inp : Nat) : RState × List Ev :=
-  let (h1, cur, evs) := chain E true u (yieldOf E.H true (E.ucls u)) st.heap inp
+  let (h1, cur, evs) := chain E true u (walk E.H true (E.ucls u)) st.heap inp
   let (h2, ip) := h1.alloc (h1.marks cur)
   match st.uout u with
   | some _ =>
@@ -219,7 +222,7 @@ def initSolve (E : Env) (st : RState) (u inp : Nat) : RState × List Ev :=
 def finishSolve (E : Env) (st : RState) (u : Nat) : RState × Nat × List Ev :=
   let op := (st.uout u).getD 0
   let (h1, cp) := st.heap.alloc (st.heap.marks op)
-  let (h2, ret, evs) := chain E false u (yieldOf E.H false (E.ucls u)) h1 cp
+  let (h2, ret, evs) := chain E false u (walk E.H false (E.ucls u)) h1 cp
   let ip := (st.uin u).getD 0
   ({ st with heap := h2 }, ret, evs ++ [.leave u ret ip op (h2.marks ret) (h2.marks ip) (h2.marks op)])
 
